@@ -1354,8 +1354,17 @@ class Engine:
         if self.loop_hooks:
             fn = env.get('__func__')
             hook = self.loop_hooks.get((fn, self.loop_ordinal(fn, s))) if fn is not None else None
-            if hook is not None and hook(self, s, env, g):
-                return
+            if hook is not None:
+                try:
+                    if hook(self, s, env, g):
+                        return
+                except _Break:
+                    # the body of a loop that a unit cuts at an arbitrary iteration leaves the loop: the iterations after it
+                    # are not executed, so the inductive argument (every iteration is one step of the specified loop) is gone
+                    self.oblige('inv.step', 'the loop body does not leave the loop early (every iteration of the specified loop is performed)', False)
+                    raise PathEnd()
+                except _Continue:
+                    raise OutOfSubset('continue in the body of a loop cut by a unit')
         it = self.ev(s.iter, env, g)
         broke = False
         for x in self.iterate(it):
